@@ -167,7 +167,7 @@ Section eval.
     | O => OutOfFuel
     | S f =>
       match p with
-      | PId => Done (src, st)
+      | PId => if plain src then Done (src, st) else Stuck   (* only values without addresses: basic values, struct{} *)
       | PShare => Done (src, st)
       | PRef alias v => let* (r, st1) := eval_v f cx v src st in
                         if alias then Done (VPtr ALIAS r, st1) else Done (VPtr st1 r, st1 + 1)
